@@ -116,6 +116,17 @@ impl Report {
         });
     }
 
+    /// files everything found so far under one property (a workload that several checks share reports under the id of the
+    /// check that runs it; the original id stays in the kind)
+    pub fn relabel(&mut self, property: &str) {
+        for v in self.violations.iter_mut() {
+            if v.property != property {
+                v.kind = format!("{} (as seen by the {} workload)", v.kind, v.property);
+                v.property = property.to_owned();
+            }
+        }
+    }
+
     pub fn inconclusive(&mut self, reason: impl Into<String>) {
         let reason = reason.into();
         if !self.inconclusive.contains(&reason) {
